@@ -24,17 +24,19 @@ structure Mono (s s' : Sys) : Prop where
   run : ∀ u, R s' u → R s u
   kids : ∀ u, (s'.get u).kids = (s.get u).kids ∨ (s'.get u).kids = []
   frame : ∀ u, R s' u → (s'.get u).kids = (s.get u).kids
+  uninit : ∀ u, (s.get u).status = .uninit → (s'.get u).status = .uninit
 
 def DC (s s' : Sys) : Prop :=
   ∀ u, R s u → ¬ R s' u →
     Dead s' u ∧ (s'.get u).kids = [] ∧ ∀ kv ∈ (s.get u).kids, R s kv.2 → Dead s' kv.2
 
 theorem Mono.refl (s : Sys) : Mono s s :=
-  ⟨rfl, rfl, fun _ h => h, fun _ h => h, fun _ h => h, fun _ => Or.inl rfl, fun _ _ => rfl⟩
+  ⟨rfl, rfl, fun _ h => h, fun _ h => h, fun _ h => h, fun _ => Or.inl rfl, fun _ _ => rfl, fun _ h => h⟩
 
 theorem Mono.trans {a b c : Sys} (h1 : Mono a b) (h2 : Mono b c) : Mono a c := by
   refine ⟨h2.flavor.trans h1.flavor, h2.n.trans h1.n, fun u h => h2.dead u (h1.dead u h),
-    fun u h => h2.stopped u (h1.stopped u h), fun u h => h1.run u (h2.run u h), fun u => ?_, fun u h => ?_⟩
+    fun u h => h2.stopped u (h1.stopped u h), fun u h => h1.run u (h2.run u h), fun u => ?_, fun u h => ?_,
+    fun u h => h2.uninit u (h1.uninit u h)⟩
   · rcases h2.kids u with e2 | e2
     · rcases h1.kids u with e1 | e1
       · exact Or.inl (e2.trans e1)
@@ -81,13 +83,13 @@ theorem mono_upd_inert (s : Sys) (x : Nat) (f : Actor → Actor) (h1 : ∀ a, (f
     · exact hu
   exact ⟨rfl, n_upd s x f, fun u hd => ⟨by rw [hst]; exact hd.1, fun ha => hal u (hd.2 ha)⟩,
     fun u h => by rw [hst]; exact h, fun u h => by unfold R at *; rw [← hst]; exact h,
-    fun u => Or.inl (hk u), fun u _ => hk u⟩
+    fun u => Or.inl (hk u), fun u _ => hk u, fun u h => by rw [hst]; exact h⟩
 
 theorem mono_of_actors_eq {s s' : Sys} (hf : s'.flavor = s.flavor) (ha : s'.actors = s.actors) : Mono s s' := by
   have hg : ∀ u, s'.get u = s.get u := get_congr ha
   exact ⟨hf, by rw [ha], fun u hd => ⟨by rw [hg]; exact hd.1, by rw [hg, hf]; exact hd.2⟩,
     fun u h => by rw [hg]; exact h, fun u h => by unfold R at *; rw [← hg]; exact h,
-    fun u => Or.inl (by rw [hg]), fun u _ => by rw [hg]⟩
+    fun u => Or.inl (by rw [hg]), fun u _ => by rw [hg], fun u h => by rw [hg]; exact h⟩
 
 theorem mono_drainAll (busy : Option Nat) (s : Sys) : Mono s (drainAll busy s) := by
   have hst : ∀ u, ((drainAll busy s).get u).status = (s.get u).status := by
@@ -108,7 +110,7 @@ theorem mono_drainAll (busy : Option Nat) (s : Sys) : Mono s (drainAll busy s) :
     intro u hu; rw [get_drainAll]; unfold drainActor; simp [hu]
   exact ⟨rfl, n_drainAll busy s, fun u hd => ⟨by rw [hst]; exact hd.1, fun ha => hal u (hd.2 ha)⟩,
     fun u h => by rw [hst]; exact h, fun u h => by unfold R at *; rw [← hst]; exact h,
-    fun u => Or.inl (hk u), fun u _ => hk u⟩
+    fun u => Or.inl (hk u), fun u _ => hk u, fun u h => by rw [hst]; exact h⟩
 
 /-- the status of every actor is the same in both states -/
 def SameStatus (s s' : Sys) : Prop := ∀ u, (s'.get u).status = (s.get u).status
@@ -176,7 +178,11 @@ theorem mono_markStopped (s : Sys) (x : Nat) (hr : R s x) : Mono s (markStopped 
   have hal : ∀ u, ((s.upd x fun a => { a with status := .stopped }).get u).alive = (s.get u).alive :=
     fun u => get_upd_proj (·.alive) s x u _ (fun _ => rfl)
   have hne : ∀ u, u ≠ x → (s.upd x fun a => { a with status := .stopped }).get u = s.get u := fun u h => get_upd_ne s _ h
-  refine ⟨rfl, n_upd s x _, fun u hd => ?_, fun u h => ?_, fun u h => ?_, fun u => Or.inl (hk u), fun u _ => hk u⟩
+  refine ⟨rfl, n_upd s x _, fun u hd => ?_, fun u h => ?_, fun u h => ?_, fun u => Or.inl (hk u), fun u _ => hk u, fun u h => ?_⟩
+  rotate_left 3
+  · have : u ≠ x := by
+      intro e; subst e; unfold R at hr; rw [hr] at h; cases h
+    rw [hne u this]; exact h
   · have : u ≠ x := by
       intro e; subst e; unfold R at hr; have h1 := hd.1; rw [hr] at h1; cases h1
     have hg := hne u this
@@ -199,7 +205,8 @@ theorem mono_clearKids (s : Sys) (x : Nat) (hnr : ¬ R s x) : Mono s (clearKids 
     fun u => get_upd_proj (·.alive) s x u _ (fun _ => rfl)
   have hne : ∀ u, u ≠ x → (s.upd x fun a => { a with kids := [] }).get u = s.get u := fun u h => get_upd_ne s _ h
   refine ⟨⟨rfl, n_upd s x _, fun u hd => ⟨by rw [hst]; exact hd.1, fun ha => by rw [hal]; exact hd.2 ha⟩,
-    fun u h => by rw [hst]; exact h, fun u h => by unfold R at *; rw [← hst]; exact h, fun u => ?_, fun u h => ?_⟩, hst⟩
+    fun u h => by rw [hst]; exact h, fun u h => by unfold R at *; rw [← hst]; exact h, fun u => ?_, fun u h => ?_,
+    fun u h => by rw [hst]; exact h⟩, hst⟩
   · by_cases e : u = x
     · subst e
       by_cases hx : u < s.actors.length
@@ -259,11 +266,12 @@ theorem stopA_spec (busy : Option Nat) : ∀ (fuel : Nat) (s : Sys) (x : Nat), W
     unfold stopA
     have hr0 : (s.get x).status = .running := hr
     simp only [hr0, if_true]
-    have m01 := mono_markStopped s x hr
+    have m01 : Mono s (unregister (markStopped s x) x) :=
+      (mono_markStopped s x hr).trans (mono_of_actors_eq (s' := unregister (markStopped s x) x) rfl rfl)
     have hkids1 : ∀ kv ∈ (s.get x).kids, x < kv.2 ∧ kv.2 < s.actors.length := fun kv h => hwf x kv h
-    have ⟨m12, c12, p12⟩ := fold (s.get x).kids (markStopped s x) (hwf.mono m01) m01.n hkids1
-    generalize hfin : (s.get x).kids.foldl (fun a kv => stopA busy fuel a kv.2) (markStopped s x) = fin at m12 c12 p12
-    have hxs1 : ((markStopped s x).get x).status = .stopped := markStopped_status s x hx
+    have ⟨m12, c12, p12⟩ := fold (s.get x).kids (unregister (markStopped s x) x) (hwf.mono m01) m01.n hkids1
+    generalize hfin : (s.get x).kids.foldl (fun a kv => stopA busy fuel a kv.2) (unregister (markStopped s x) x) = fin at m12 c12 p12
+    have hxs1 : ((unregister (markStopped s x) x).get x).status = .stopped := markStopped_status s x hx
     have hxfin : (fin.get x).status = .stopped := m12.stopped x hxs1
     have hnrfin : ¬ R fin x := by unfold R; rw [hxfin]; decide
     have ⟨m23, s23⟩ := mono_clearKids fin x hnrfin
@@ -272,7 +280,9 @@ theorem stopA_spec (busy : Option Nat) : ∀ (fuel : Nat) (s : Sys) (x : Nat), W
     have hdead : Dead (stopTail busy (clearKids fin x) x) x := stopTail_dead busy _ x hx3
     have mfin' : Mono fin (stopTail busy (clearKids fin x) x) := m23.trans m34
     have mall : Mono s (stopTail busy (clearKids fin x) x) := (m01.trans m12).trans mfin'
-    have hne : ∀ u, u ≠ x → (markStopped s x).get u = s.get u := fun u h => by unfold markStopped; exact get_upd_ne s _ h
+    have hne : ∀ u, u ≠ x → (unregister (markStopped s x) x).get u = s.get u := fun u h => by
+      show (markStopped s x).get u = s.get u
+      unfold markStopped; exact get_upd_ne s _ h
     have hkx : ((stopTail busy (clearKids fin x) x).get x).kids = [] := by
       have hxn : x < fin.actors.length := by rw [m12.n, m01.n]; exact hx
       rcases m34.kids x with e | e
@@ -283,9 +293,9 @@ theorem stopA_spec (busy : Option Nat) : ∀ (fuel : Nat) (s : Sys) (x : Nat), W
     · subst e
       refine ⟨hdead, hkx, fun kv hkv hrk => ?_⟩
       have hne' : kv.2 ≠ u := by have := (hwf u kv hkv).1; omega
-      have : R (markStopped s u) kv.2 := by unfold R; rw [hne _ hne']; exact hrk
+      have : R (unregister (markStopped s u) u) kv.2 := by unfold R; rw [hne _ hne']; exact hrk
       exact mfin'.dead _ (p12 kv hkv this)
-    · have hu1 : R (markStopped s x) u := by unfold R; rw [hne u e]; exact hus
+    · have hu1 : R (unregister (markStopped s x) x) u := by unfold R; rw [hne u e]; exact hus
       have hufin : ¬ R fin u := by
         intro h; apply hus'; unfold R at *
         rw [s34 u, s23 u]; exact h
@@ -296,8 +306,8 @@ theorem stopA_spec (busy : Option Nat) : ∀ (fuel : Nat) (s : Sys) (x : Nat), W
         · exact e2
       · by_cases e2 : kv.2 = x
         · rw [e2]; exact hdead
-        · have hk1 : ((markStopped s x).get u).kids = (s.get u).kids := by rw [hne u e]
-          have : R (markStopped s x) kv.2 := by unfold R; rw [hne _ e2]; exact hrk
+        · have hk1 : ((unregister (markStopped s x) x).get u).kids = (s.get u).kids := by rw [hne u e]
+          have : R (unregister (markStopped s x) x) kv.2 := by unfold R; rw [hne _ e2]; exact hrk
           exact mfin'.dead _ (dkids kv (by rw [hk1]; exact hkv) this)
 
 theorem stop_spec (busy : Option Nat) (s : Sys) (x : Nat) (hwf : WF s) (hx : x < s.actors.length) (hr : R s x) :
